@@ -449,11 +449,19 @@ func EVAL(ctx context.Context, ast MalType, env EnvType) (res MalType, e error) 
 			ast = quasiquote(a1)
 		case "defmacro":
 			fn, e := EVAL(ctx, a2, env)
-			fn = fn.(MalFunc).SetMacro()
 			if e != nil {
 				return nil, e
 			}
-			return env.Set(a1.(Symbol), fn), nil
+			malFn, ok := fn.(MalFunc)
+			if !ok {
+				return nil, lisperror.NewLispError(fmt.Errorf("defmacro requires a function (was of type %T)", fn), ast)
+			}
+			switch a1 := a1.(type) {
+			case Symbol:
+				return env.Set(a1, malFn.SetMacro()), nil
+			default:
+				return nil, lisperror.NewLispError(fmt.Errorf("cannot use '%T' as identifier", a1), ast)
+			}
 		case "macroexpand":
 			return macroexpand(ctx, a1, env)
 		case "try":
